@@ -130,6 +130,68 @@ __CPROVER_ensures(__CPROVER_return_value == self->crc_);
 static unsigned long CCITT_CRC16_init(void)
 __CPROVER_assigns() __CPROVER_ensures(__CPROVER_return_value == 0xFFFFul);     /* CRC-16/CCITT as used on disc: initial value 0xFFFF */
 
+/* ---- FM ---- */
+#define FM_BYTE_LOOP_CONTRACT \
+  __CPROVER_assigns(bitnum, start, clock, data) \
+  __CPROVER_loop_invariant(0 <= bitnum && bitnum <= 8 && start == __CPROVER_loop_entry(start) + 2 * (size_t)bitnum && \
+                           clock < (1u << bitnum) && data < (1u << bitnum) && (bitnum == 0 || CELL_IN(bits, start - 1))) \
+  __CPROVER_loop_invariant((g_bit < (unsigned)bitnum) ==> \
+     ((((clock >> ((unsigned)(bitnum - 1) - g_bit)) & 1) != 0) == CELL(bits, __CPROVER_loop_entry(start) + 2 * g_bit) && \
+      (((data >> ((unsigned)(bitnum - 1) - g_bit)) & 1) != 0) == CELL(bits, __CPROVER_loop_entry(start) + 2 * g_bit + 1))) \
+  __CPROVER_decreases(8 - bitnum)
+#define COPY_FM_LOOP_CONTRACT \
+  __CPROVER_assigns(n, thisbit, out->n, __CPROVER_object_whole(h_crc_data), g_diag) \
+  __CPROVER_loop_invariant(n <= __CPROVER_loop_entry(n) && out->n == __CPROVER_loop_entry(out->n) + (__CPROVER_loop_entry(n) - n) && \
+                           thisbit == __CPROVER_loop_entry(thisbit) + 16 * (__CPROVER_loop_entry(n) - n) && g_diag == __CPROVER_loop_entry(g_diag)) \
+  __CPROVER_loop_invariant((g_m < __CPROVER_loop_entry(n) - n) ==> \
+     ((((h_vec_store[__CPROVER_loop_entry(out->n) + g_m] >> (7 - g_bit)) & 1) != 0) == CELL(bits, __CPROVER_loop_entry(thisbit) + 16 * g_m + 2 * g_bit + 1) && \
+      CELL(bits, __CPROVER_loop_entry(thisbit) + 16 * g_m + 2 * g_bit)))
+#define FM_FIND_LOOP_CONTRACT \
+  __CPROVER_assigns(thisbit) \
+  __CPROVER_loop_invariant(thisbit >= __CPROVER_loop_entry(thisbit) && (thisbit == __CPROVER_loop_entry(thisbit) || thisbit <= 8 * TRACK_BYTES))
+#include "fm_read_byte.inc"
+#include "copy_fm_bytes.inc"
+#include "fm_get_crc.inc"
+#include "fm_find_record_address_mark.inc"
+
+static void h_fill_crc_from3(void)
+{
+  unsigned i;
+  h_crc_pref[3] = 0xFFFF;
+  for (i = 3; i < CRC_MAXLEN; ++i) h_crc_pref[i + 1] = (unsigned short)spec_crc_byte(h_crc_pref[i], h_crc_data[i]);
+}
+void h_fm_read_byte(void)
+{
+  struct BitStream *b; size_t *pos;
+  g_bit = nondet_uint(); __CPROVER_assume(g_bit < 8);
+  struct opt_cd r = fm_read_byte(b, pos);
+  VERIF_COVER(r.has && r.first == 0xC7 && r.second == 0xFE, "the FM ID address mark (clock C7, data FE)");
+  VERIF_COVER(!r.has, "end of track");
+}
+void h_copy_fm(void)
+{
+  struct BitStream *b; size_t *pos; struct decvec *v;
+  g_bit = nondet_uint(); __CPROVER_assume(g_bit < 8); g_m = nondet_size_t(); g_diag = nondet_ulong();
+  _Bool ok = copy_fm_bytes(b, pos, nondet_size_t(), v);
+  VERIF_COVER(ok && v->n == 7, "seven bytes in the vector");
+  VERIF_COVER(!ok, "copy failed");
+}
+void h_fm_get_crc(void)
+{
+  struct decvec *v;
+  h_fill_crc_from3();                 /* the specification: bit-serial CRC from 0xFFFF over the vector */
+  unsigned long r = fm_get_crc(v);
+  VERIF_COVER(r == 0 && v->n == 7, "a 7-byte ID field with a good CRC");
+  VERIF_COVER(r != 0, "CRC mismatch");
+}
+void h_fm_find(void)
+{
+  struct BitStream *b; size_t *pos;
+  g_p = nondet_size_t();
+  struct opt_uint r = fm_find_record_address_mark(pos, b, nondet_size_t());
+  VERIF_COVER(r.has && r.val == 0xF56F, "data mark found");
+  VERIF_COVER(!r.has, "no mark");
+}
 void h_scan_for(void) { struct BitStream *b; g_p = nondet_size_t(); BitStream_scan_for(b, nondet_size_t(), nondet_ulong(), nondet_ulong()); }
 void h_crc_get(void) { struct CRC16Base *c; CRC16Base_get(c); }
 void h_crc_init(void) { CCITT_CRC16_init(); }
@@ -294,5 +356,121 @@ void h_decode_mfm(void)
   decode_mfm_track(b);
   VERIF_COVER(MD.pushed == 2, "two sectors yielded");
   VERIF_COVER(MD.syncs == 3 && MD.pushed == 0, "three marks, nothing yielded");
+}
+#endif
+
+
+/* ================= the FM decoder state machine (decode_fm_track) ================================================ */
+#ifdef VERIF_FM_STATE_MACHINE
+struct FmSector { struct SectorAddress address; struct decvec data; unsigned char crc[2]; };
+struct crcmodel { int handle; };       /* DFS::CCITT_CRC16 used inline: what it was fed is recorded in MF.c_* */
+static struct
+{
+  unsigned long epoch;                 /* number of writes to the vector store so far */
+  const struct decvec *owner;          /* the vector whose elements are in the store */
+  /* last get_crc(): vector, its length and the store epoch then, and whether the result was 0 */
+  const struct decvec *crc_vec; size_t crc_n; unsigned long crc_epoch; _Bool crc_zero;
+  /* the ID field in force */
+  _Bool hdr_open, hdr_crc_ok; int hdr_size; struct SectorAddress hdr_addr;
+  /* last copy_fm_bytes */
+  const struct decvec *copy_vec; size_t copy_from, copy_n; _Bool copy_ok; unsigned long copy_epoch;
+  /* the inline CRC object: segments fed since its construction, and the result read from it */
+  unsigned c_nseg; size_t c_s0_len; byte c_s0_val; const byte *c_s1_ptr; size_t c_s1_len; unsigned long c_s1_epoch; const struct decvec *c_s1_owner; _Bool c_zero;
+  unsigned long ids, pushed;
+} MF;
+static void fmsector_init(struct FmSector *s) { s->data.n = 0; s->data.sync = 0; }
+static void decvec_init(struct decvec *v) { v->n = 0; v->sync = 0; }
+static void decvec_push_v(struct decvec *v, byte val) { MF.epoch = MF.epoch + 1; MF.owner = v; decvec_push(v, val); }
+static void decvec_resize(struct decvec *v, size_t k)            /* resize: grows with zeros, shrinks keeping the prefix */
+{
+  __CPROVER_assert(k <= DECVEC_CAP, "model: vector storage of DECVEC_CAP bytes");
+  if (k > v->n) { MF.epoch = MF.epoch + 1; MF.owner = v; }
+  v->n = k;
+}
+static void decvec_clear(struct decvec *v) { v->n = 0; }
+static struct opt_scan BitStream_scan_for_v(const struct BitStream *bits, size_t start, uint64_t val, uint64_t mask)
+{ return BitStream_scan_for(bits, start, val, mask); }
+static struct opt_uint fm_find_record_address_mark_v(size_t *thisbit, const struct BitStream *bits, size_t bits_avail)
+{ return fm_find_record_address_mark(thisbit, bits, bits_avail); }
+static bool copy_fm_bytes_v(const struct BitStream *bits, size_t *thisbit, size_t n, struct decvec *out)
+{
+  bool r;
+  MF.epoch = MF.epoch + 1; MF.owner = out;
+  MF.copy_vec = out; MF.copy_from = out->n; MF.copy_n = n;
+  g_diag = 0;
+  r = copy_fm_bytes(bits, thisbit, n, out);
+  MF.copy_ok = r; MF.copy_epoch = MF.epoch;
+  return r;
+}
+static unsigned long fm_get_crc_v(const struct decvec *v)
+{
+  unsigned long r = fm_get_crc(v);
+  MF.crc_vec = v; MF.crc_n = v->n; MF.crc_epoch = MF.epoch; MF.crc_zero = (r == 0) && MF.owner == v;
+  return r;
+}
+static bool decode_sector_address_and_size_v(const struct decvec *h, struct SectorAddress *a, int *siz)
+{
+  bool r;
+  __CPROVER_assert(h->n >= 5 && MF.owner == h, "C07: the ID field decoder reads five bytes of the header vector");
+  g_diag = 0;
+  r = decode_sector_address_and_size(h_vec_store, a, siz);
+  MF.hdr_open = r;
+  if (r)
+    {
+      MF.hdr_crc_ok = (MF.crc_vec == h && MF.crc_zero && MF.crc_n == h->n && h->n == 7 && MF.crc_epoch == MF.epoch);
+      MF.hdr_size = *siz; MF.hdr_addr = *a; MF.ids = MF.ids + 1;
+    }
+  return r;
+}
+static void crcm_init(struct crcmodel *c) { c->handle = 0; MF.c_nseg = 0; MF.c_zero = 0; }
+static void crcm_update(struct crcmodel *c, const byte *start, const byte *end)
+{
+  (void)c;
+  __CPROVER_assert(__CPROVER_same_object(start, end) && end >= start, "C07: update() over a valid range");
+  if (MF.c_nseg == 0) { MF.c_s0_len = (size_t)(end - start); MF.c_s0_val = (end - start == 1) ? *start : 0; }
+  else if (MF.c_nseg == 1) { MF.c_s1_ptr = start; MF.c_s1_len = (size_t)(end - start); MF.c_s1_epoch = MF.epoch; MF.c_s1_owner = MF.owner; }
+  if (MF.c_nseg < 3) MF.c_nseg = MF.c_nseg + 1;
+}
+static unsigned long crcm_get(struct crcmodel *c) { unsigned long v = nondet_ulong(); (void)c; MF.c_zero = (v == 0); return v; }
+/* C06: what must be true of every sector the FM decoder yields */
+static void mon_push_sector_fm(const struct FmSector *s)
+{
+  __CPROVER_assert(MF.hdr_open && MF.hdr_crc_ok, "C06: the ID field of a yielded sector passed the CRC check (mark FE + 6 bytes, all 16 CRC bits)");
+  __CPROVER_assert(s->address.cylinder == MF.hdr_addr.cylinder && s->address.head == MF.hdr_addr.head && s->address.record == MF.hdr_addr.record,
+                   "C06: the address of a yielded sector is the one decoded from that ID field");
+  __CPROVER_assert(MF.copy_vec == &s->data && MF.copy_ok && MF.copy_from == 0 && MF.copy_n == (size_t)MF.hdr_size + 2 && MF.copy_epoch == MF.epoch,
+                   "C06: the data yielded are the size-code many bytes (plus CRC) copied after the data mark, untouched since");
+  __CPROVER_assert(MF.c_nseg == 2 && MF.c_zero && MF.c_s0_len == 1 && MF.c_s0_val == data_address_mark &&
+                   MF.c_s1_ptr == h_vec_store && MF.c_s1_len == (size_t)MF.hdr_size + 2 && MF.c_s1_epoch == MF.epoch && MF.c_s1_owner == &s->data,
+                   "C06: the data field of a yielded sector passed the CRC check (mark FB, data, CRC bytes; result 0)");
+  __CPROVER_assert(s->data.n == (size_t)MF.hdr_size, "C06: the yielded data is exactly the sector, without the CRC bytes");
+  MF.hdr_open = 0;
+  MF.pushed = MF.pushed + 1;
+}
+#define FM_DECODE_LOOP_CONTRACT \
+  __CPROVER_assigns(thisbit, state, sec, sec_size, MF, g_diag, __CPROVER_object_whole(h_crc_data), __CPROVER_object_whole(h_inner)) \
+  __CPROVER_loop_invariant(thisbit <= 8 * TRACK_BYTES + 16 * 1032 && sec.data.n <= DECVEC_CAP && MF.ids <= thisbit && MF.pushed <= MF.ids && MF.pushed + (MF.hdr_open ? 1 : 0) <= MF.ids) \
+  __CPROVER_loop_invariant(state == LookingForAddress || state == LookingForRecord) \
+  __CPROVER_loop_invariant(state == LookingForRecord ==> \
+     (MF.hdr_open && MF.hdr_crc_ok && sec_size == MF.hdr_size && \
+      (sec_size == 128 || sec_size == 256 || sec_size == 512 || sec_size == 1024) && \
+      sec.address.cylinder == MF.hdr_addr.cylinder && sec.address.head == MF.hdr_addr.head && sec.address.record == MF.hdr_addr.record))
+#include "decode_fm_track.inc"
+
+static void decode_fm_track(const struct BitStream *bits)
+__CPROVER_requires(BS_OK(bits) && bits->first_ <= bits->raw_bit_size_)
+__CPROVER_requires(MF.ids == 0 && MF.pushed == 0 && !MF.hdr_open && !MF.crc_zero && !MF.copy_ok && MF.epoch == 0)
+__CPROVER_assigns(MF, g_diag, __CPROVER_object_whole(h_crc_data), __CPROVER_object_whole(h_inner))
+/* every yielded sector satisfied the monitor (assertions in mon_push_sector_fm); each needs an ID field of its own */
+__CPROVER_ensures(MF.pushed <= MF.ids);
+
+void h_decode_fm(void)
+{
+  struct BitStream *b;
+  g_bit = nondet_uint(); __CPROVER_assume(g_bit < 8); g_m = nondet_size_t(); g_p = nondet_size_t();
+  MF.ids = 0; MF.pushed = 0; MF.hdr_open = 0; MF.crc_zero = 0; MF.copy_ok = 0; MF.epoch = 0; MF.owner = 0; MF.crc_vec = 0; MF.copy_vec = 0; MF.c_nseg = 0;
+  decode_fm_track(b);
+  VERIF_COVER(MF.pushed == 2, "two sectors yielded");
+  VERIF_COVER(MF.ids == 2 && MF.pushed == 0, "two ID fields, nothing yielded");
 }
 #endif
